@@ -454,7 +454,7 @@ def main():
                 "key exactly once (tables_exactly_once, databases_exactly_once), each SHOW form = its FROM/LIKE subset (show_*_exact), the translated "
                 "regex under fullmatch = SQL LIKE for all patterns and strings (like_regex_equiv)")
     chk.tie(["MimicProps.C16"])
-    chk.run_replays(["D16", "D16b"])
+    chk.run_replays(["D16", "D16b", "D16d"])
     rng = random.Random(chk.seed * 49979687 + 16)
     nschema = 260 if chk.thorough else 40
 
